@@ -171,6 +171,10 @@ func (wk *worker) segmentUnit(i int) {
 		if len(tx) > 300 {
 			sp = sweepSpec{FieldSample: 2000, Trunc: len(tx) <= 2048, Flips: 64}
 		}
+		if len(tx) > 2048 {
+			// a failing decompression of a large block tries buffers up to 255 x its length (64 MiB in all)
+			sp = sweepSpec{FieldSample: 40, Flips: 16}
+		}
 		sweep(tx, sp, r, func(in []byte, m mut) { payloadMut(append([]byte{}, in...), m) })
 		for bi, hb := range hostileLZ4 {
 			for _, ul := range []uint32{1, 64, segref.MaxPayload} {
@@ -229,7 +233,21 @@ func (wk *worker) compressUnit(i int) {
 	sf := run(epSnappyWithLen, 2, fnSnappyWithLen)
 	if sn != nil {
 		sf(sn, mut{Class: mcValid})
-		sweep(sn, sp(sn), r, sf)
+		// the declared-length varint is not swept byte-wise (a continuation bit makes the following
+		// bytes a length of up to 4 GiB, which snappy.Decode allocates): it takes the listed lengths
+		// below and 2^28.. in the resource table; the element stream behind it is swept exhaustively
+		_, vn0 := binary.Uvarint(sn)
+		if vn0 < 1 {
+			vn0 = 1
+		}
+		ssp := sp(sn)
+		ssp.From = vn0
+		sweep(sn, ssp, r, sf)
+		sweep(sn, sweepSpec{Trunc: true}, r, func(in []byte, m mut) {
+			if m.O < vn0 {
+				sf(in, m)
+			}
+		})
 		if _, vn := binary.Uvarint(sn); vn > 0 {
 			for _, v := range append([]uint64{uint64(n) + 1, uint64(n+255) % 256}, snappyLens...) {
 				sf(append(uvarint(v), sn[vn:]...), mut{Class: mcPrefix, W: vn, Val: int64(v)})
@@ -255,11 +273,18 @@ func (wk *worker) compressUnit(i int) {
 		b := r.Bytes(r.Intn(65)) // the decompressors bound their output by the input length: uniform bytes are cheap
 		raw(b, mut{Class: mcRandom, O: j})
 		wl(b, mut{Class: mcRandom, O: j})
-		// random bytes for Snappy: the varint length is kept below 2^28 by clearing the top bits of
-		// the fifth length byte; larger declared lengths belong to the resource table
-		if len(b) >= 5 && b[0]&b[1]&b[2]&b[3]&0x80 != 0 {
-			b[4] &= 0x00
-		}
-		sf(b, mut{Class: mcRandom, O: j})
+		// random bytes for Snappy: the declared length is kept below 2^21 (see snappySafe)
+		sf(snappySafe(b), mut{Class: mcRandom, O: j})
 	}
+}
+
+// snappySafe returns b with its leading varint (the declared decoded length, which snappy.Decode
+// allocates before looking at anything else) limited to three bytes, i.e. below 2^21; larger declared
+// lengths are the compression-prefix class (up to 2^24) and the resource table (2^28 and above).
+func snappySafe(b []byte) []byte {
+	if len(b) >= 3 && b[0]&b[1]&0x80 != 0 && b[2]&0x80 != 0 {
+		b = append([]byte{}, b...)
+		b[2] &= 0x7F
+	}
+	return b
 }
